@@ -237,6 +237,8 @@ func (n *leaf) prove(m *mpt, keys []byte, proof [][]byte) (node, trie.Object, er
 		if len(proof) != 1 || !bytes.Equal(proof[0], n.serialized) {
 			return n, nil, common.ErrIllegalArgument
 		}
+	} else if len(proof) != 0 {
+		return n, nil, common.ErrIllegalArgument
 	}
 
 	_, match := compareKeys(n.keys, keys)
